@@ -136,7 +136,9 @@ func checkGeneric(c core.Case, out []string) *core.Failure {
 			return fail("generic-format", i, c, out, "unparsable")
 		}
 		res := strings.Fields(out[i][:k])[0]
-		if dirty >= 0 && !(t[0] == "fix" && t[1] == strconv.Itoa(dirty)) && t[0] != "init" {
+		if dirty >= 0 && !((t[0] == "fix" || t[0] == "rm") && t[1] == strconv.Itoa(dirty)) && t[0] != "init" {
+			// (Fix(h,i) repairs the one changed element; Remove(h,i) takes it out — "Fix is equivalent
+			// to, but less expensive than, calling Remove(h, i) followed by a Push of the new value")
 			return nil
 		}
 		switch t[0] {
@@ -165,6 +167,7 @@ func checkGeneric(c core.Case, out []string) *core.Failure {
 				return fail("generic-rm", i, c, out, "Remove(h,%d) must return element %d", ix, prev[ix])
 			}
 			ref, _ = removeOne(ref, prev[ix])
+			dirty = -1
 		case "fix":
 			dirty = -1
 		case "set":
@@ -231,7 +234,21 @@ func genGeneric(r *core.Rand) core.Case {
 		if n < target {
 			pushW = 40
 		}
-		switch r.Pick(6, pushW, 20, 24, 16, 6) {
+		switch r.Pick(6, pushW, 20, 24, 16, 6, 9) {
+		case 6:
+			// data[i] = v followed DIRECTLY by Remove(h, i)
+			if n == 0 {
+				continue
+			}
+			e := sim.pickChanged(r, 0)
+			i := sim.idx[e]
+			v := val()
+			if r.Chance(75) {
+				v = sim.advValue(r, 0, e, cn)
+			}
+			lines = append(lines, fmt.Sprintf("set %d %d", i, v), fmt.Sprintf("rm %d", i))
+			sim.vals[e] = v
+			sim.remove(0, e)
 		case 0:
 			lines = append(lines, "init")
 			sim.build(0)
